@@ -75,6 +75,9 @@ func runStartFailCase(c sfCase, bin, tmp string) map[string]interface{} {
 		pc.MockThen = "exit"
 	case "closeout":
 		pc.MockThen = "close"
+	case "closeboth":
+		// it closes its stdout and its stderr and stays alive: both of the host's pipe readers see EOF
+		pc.MockThen = "closeboth"
 	}
 	p := vp.NewPair(bin, hc, pc, nil, nil)
 	if c.Cause == "tinytimeout" {
